@@ -322,7 +322,14 @@ func (r *Run) TempDir() string {
 	if r.tmp == "" {
 		base := os.Getenv("VERIF_TMP")
 		if base == "" {
-			base = os.TempDir()
+			// scratch indexes are tiny and fsync-heavy; a RAM file system keeps
+			// the crash and stress workloads fast (process-death consistency
+			// does not depend on the medium)
+			if st, err := os.Stat("/dev/shm"); err == nil && st.IsDir() {
+				base = "/dev/shm"
+			} else {
+				base = os.TempDir()
+			}
 		}
 		d, err := os.MkdirTemp(base, "verif-"+r.Prop+"-")
 		if err != nil {
